@@ -483,4 +483,61 @@ example : Avo.ISA.requiredISA ["AVX512VL", "AVX", "AVX512F"] = ["AVX", "AVX512F"
 example : mostRestricted [(513, [256, 65792]), (257, [256, 65792]), (769, [256])] = some (769, [256]) := by decide
 example : sortRegs (fun id => if id == 327936 then -1 else 0) [327936, 256, 131328, 65792] = [256, 65792, 131328, 327936] := by decide
 
+/-! ## The acceptor of the repeated-run measurement -/
+
+/-- What the measurement demands of the digests (asm bytes . stub bytes . allocation+ISA, or the
+error text) of all generations of one program — same process, interleaved with other generations,
+fresh processes: none panicked and all are equal. -/
+def AllRunsAgree (ds : List String) : Prop := "panic" ∉ ds ∧ ∀ x ∈ ds, ∀ y ∈ ds, x = y
+
+theorem acceptDet_sound (ds : List String) (h : Avo.Det.acceptDet ds = true) : AllRunsAgree ds := by
+  unfold Avo.Det.acceptDet at h
+  cases ds with
+  | nil => exact ⟨by simp, by intro x hx; cases hx⟩
+  | cons d rest =>
+    simp only [Avo.Det.judge] at h
+    split at h
+    · cases h
+    · rename_i hp
+      split at h
+      · rename_i ha
+        constructor
+        · intro hm
+          apply hp
+          exact List.any_eq_true.mpr ⟨"panic", hm, by simp⟩
+        · have hall : ∀ z ∈ d :: rest, z = d := by
+            intro z hz
+            rcases List.mem_cons.mp hz with e | hz
+            · exact e
+            · have := List.all_eq_true.mp ha z hz
+              simpa using this
+          intro x hx y hy
+          rw [hall x hx, hall y hy]
+      · cases h
+
+theorem acceptDet_complete (ds : List String) (h : AllRunsAgree ds) : Avo.Det.acceptDet ds = true := by
+  unfold Avo.Det.acceptDet
+  cases ds with
+  | nil => rfl
+  | cons d rest =>
+    obtain ⟨hp, heq⟩ := h
+    simp only [Avo.Det.judge]
+    have h1 : ¬ ((d :: rest).any (· == "panic") = true) := by
+      intro ha
+      obtain ⟨z, hz, hzp⟩ := List.any_eq_true.mp ha
+      have : z = "panic" := by simpa using hzp
+      exact hp (this ▸ hz)
+    have h2 : rest.all (· == d) = true := by
+      apply List.all_eq_true.mpr
+      intro z hz
+      have := heq z (List.mem_cons_of_mem _ hz) d List.mem_cons_self
+      simp [this]
+    rw [if_neg h1, if_pos h2]; rfl
+
+/-- Non-vacuity: equal digests are accepted, a differing stub digest or a panic is not. -/
+example : Avo.Det.acceptDet ["a1.b2.c3", "a1.b2.c3", "a1.b2.c3"] = true := by decide
+example : Avo.Det.acceptDet ["a1.b2.c3", "a1.bX.c3"] = false := by decide
+example : Avo.Det.acceptDet ["panic", "panic"] = false := by decide
+#guard Avo.Det.differingParts ["a1.b2.c3", "a1.bX.c3"] = ["stubs"]
+
 end Avo.Determinism
